@@ -107,3 +107,7 @@ package b6
 // Collecting a collection's keys: nothing is assumed about it.
 //@ func Collection.AllKeys
 //@   havoc
+// The same method reached through b6.World (which embeds FeaturesByID).
+//@ func World.HasFeatureWithID
+//@   trusted
+//@   function
